@@ -129,7 +129,6 @@ for _lit in ("'ab'", "'abcdef'", "b'ab'", 'None', 'True', 'False', '0.0', '1.0',
 # programs that reproduce the recorded known findings (genuine defects of the pinned tree that were not repaired): tagged so that they
 # are reported as KNOWN-FINDING and any OTHER failure is still a violation
 KNOWN_PROGRAMS = {
-    "def declare():\n    global eval\ndef compute(value):\n    doubled=value*2\n    return eval('doubled+value')\nprint(compute(2))": 'global-declaration-hides-reflective-builtin',
     "class Factory:\n    def create(config_name, extra=1):\n        return config_name, extra\n    create=staticmethod(create)\nprint(Factory.create(config_name='x'))": 'old-style-staticmethod-first-parameter',
     "def pick(flag):\n    if flag:\n        return 'abcd'\n    return 'abcd'\nprint(pick(1))": 'hoisted-literal-after-keyword',
     "def noisy():\n    print('annotation evaluated')\n    return int\ndef annotated(x: noisy()) -> noisy():\n    return x\nprint(annotated(1))": 'annotation-with-side-effect-removed',
@@ -167,7 +166,9 @@ PROGRAMS += [
     "def masks(flags):\n    return flags&(1<<17),flags|(1<<18),flags^(255<<16),flags&(1<<19)\nprint(masks(3))",
 ]
 PROGRAMS += list(KNOWN_PROGRAMS)
-# fixed in 7a1a7a4 / f054637 / 3bb1e82: a regression is an ordinary violation
+# fixed in 7a1a7a4 / f054637 / 3bb1e82 / 8cd404d: a regression is an ordinary violation
+GLOBAL_DECLARATION_TAINT = "def declare():\n    global eval\ndef compute(value):\n    doubled=value*2\n    return eval('doubled+value')\nprint(compute(2))"     # repaired in 8cd404d
+PROGRAMS.append(GLOBAL_DECLARATION_TAINT)
 PROGRAMS.append("class Base:\n    marker='from Base'\nobject=Base\nclass Derived(object):\n    pass\nprint(Derived.marker)")
 PROGRAMS.append("value='global value'\ndef outer():\n    value='function value'\n    class Inner:\n        seen=value\n        value='class value'\n    return Inner.seen\nprint(outer())")
 PROGRAMS.append("def collect(a, /, **kw):\n    return a, sorted(kw.items())\nprint(collect(1, a=2))")
@@ -523,7 +524,7 @@ def main(argv):
         except Exception as e:
             fails.append({'oracle': 'compile', 'options': 'size', 'input': src, 'failure': 'minify raised %s' % type(e).__name__})
     # freeze
-    extra_taint = [p for p, m in KNOWN_PROGRAMS.items() if m == 'global-declaration-hides-reflective-builtin'] + [CLASS_TAINT]
+    extra_taint = [GLOBAL_DECLARATION_TAINT, CLASS_TAINT]
     for trig in TAINT_TRIGGERS + extra_taint:
         for src in ((TAINT_TEMPLATE % trig,) if trig not in extra_taint else (trig,)):
             for label, opts in OPTION_SETS + [('everything', dict(rename_globals=True, remove_literal_statements=True))]:
